@@ -10,7 +10,7 @@ import datagen
 
 PROP_FILE = 'theories/Properties/C17.v'
 MODEL_FILES = ['theories/Model/Bounds.v']
-GEN_GROUPS = ['pbounds']
+GEN_GROUPS = ['pbounds', 'gener']
 RULE = ('probability_bounds on random vectors (values inside, at and outside the bounds) x container kinds (list, tuple, '
         'ndarray, strided view, read-only ndarray, 2-D C/F arrays, Series with default/shifted index) x bound specs '
         '(float below/at/above 1/2, negative, >1, str, int, ascending/descending/out-of-range/str pairs, 3-element lists); '
